@@ -44,12 +44,49 @@ def scan_function(f):
                         at = dqt(args[1]) or qt(args[1])
                         if at.endswith('*') and 'char' not in at:
                             yield ('stream-pointer', pos(n), at[:60])
+            if k == 'CXXNewExpr' and n.get('isArray') and not n.get('initStyle') and not any(
+                    c.get('kind') in ('InitListExpr', 'ImplicitValueInitExpr', 'CXXConstructExpr') for c in children(n)):
+                # new T[n] without an initialiser: the bytes are whatever the heap held
+                yield ('uninitialised-buffer', pos(n), t[:60])
+            if k == 'CallExpr' and callee_of(n)[1] in ('malloc', 'alloca', 'make_unique_for_overwrite', 'make_shared_for_overwrite'):
+                yield ('uninitialised-buffer', pos(n), callee_of(n)[1])
             if k == 'CXXMemberCallExpr':
                 kind, name, did, obj = callee_of(n)
                 if name == 'operator<<' and cast.call_args(n):
                     at = dqt(cast.call_args(n)[0])
                     if at.endswith('*') and 'char' not in at:
                         yield ('stream-pointer', pos(n), at[:60])
+
+
+def scan_errno(f):
+    """errno is process-wide state that outlives a compilation: reading it is only meaningful after the same function has reset it
+    before the library call (otherwise an ERANGE left by anything processed earlier changes the verdict on this input)."""
+    if f.body is None:
+        return
+    parents = {}
+    for n in walk(f.body):
+        for c in children(n):
+            parents[id(c)] = n
+    seen_reset = False
+    for n in walk(f.body):
+        if n['kind'] == 'CallExpr' and callee_of(n)[1] == '__errno_location':
+            # `errno = 0` : the deref of the call is the left operand of an assignment
+            x, write = n, False
+            for _ in range(4):
+                p_ = parents.get(id(x))
+                if p_ is None:
+                    break
+                if p_['kind'] == 'BinaryOperator' and p_.get('opcode') == '=' and children(p_)[0] is x:
+                    write = True
+                    break
+                if p_['kind'] not in ('UnaryOperator', 'ParenExpr', 'ImplicitCastExpr'):
+                    break
+                x = p_
+            if write:
+                seen_reset = True
+            elif not seen_reset:
+                yield ('errno-read-without-reset', pos(n), 'errno')
+                return
 
 
 def scan_globals(idx, namespaces):
@@ -71,6 +108,8 @@ def scan(idx, namespaces=None, funcs=None):
             continue
         for hit in scan_function(f):
             out.append((f.qname,) + hit)
+        for hit in scan_errno(f):
+            out.append((f.qname,) + hit)
     out += [('(namespace scope)',) + h for h in scan_globals(idx, namespaces)]
     return out
 
@@ -78,7 +117,7 @@ def scan(idx, namespaces=None, funcs=None):
 FIXTURE = os.path.join(os.path.dirname(os.path.abspath(__file__)), 'fixtures', 'nondet.cpp')
 EXPECT_FIXTURE = {'type:unordered_map', 'type:unordered_set', 'pointer-keyed-container', 'pointer-to-integer', 'stream-pointer',
                   'call:getenv', 'call:rand', 'type:random_device', 'call:time', 'call:now', 'type:std::hash', 'call:clock',
-                  'function-static', 'mutable-global'}
+                  'function-static', 'mutable-global', 'uninitialised-buffer', 'errno-read-without-reset'}
 
 
 def fixture_patterns():
